@@ -22,7 +22,7 @@ CLAIMED = {
          "(C02_eval, C02_cubic as Mathlib Polynomial), passes through the data (C02_through, C02_knot), is C1 (C02_C1) and C2 (C02_C2, from "
          "thomas_sound + the row<->C2 equivalence). Exact correspondence + exact oracle (values at knots, 5th sample on the fitted cubic, "
          "derivative jumps = 0) for all boundary selections incl. Periodic and per-lane Individual; f64 closeness test.", "§5 C02",
-         "single-lane theorems (lanes via C08); periodic covered by exact oracle/correspondence, its theorems are in C07; no rounding bound for the spline",
+         "single-lane theorems (lanes via C08); periodic covered by exact oracle/correspondence, its theorems are in C07; rounding: segment evaluation bounded under the standard model (C02_eval_rounding), no bound for the tridiagonal solve",
          "Lean 4 proof (Thomas soundness, pivot positivity by induction, field algebra) + exact-rational correspondence + formula tie (kernels re-translated from the source each run, FT_* theorems)"),
  "C03": ("Kernel-checked: the returned slopes satisfy the selected condition at each end (C03_conditions: S'=v, S''=v, continuous third "
          "derivative for NotAKnot incl. the repaired right row; C03_parabola) and are the only slopes whose piecewise cubic is C2 and meets "
